@@ -163,6 +163,10 @@ def handle (getK : Json → Except String K) (putK : K → Json) (sqrt : K → K
       let S := collSys sqrt dt interp vol noise.toList ncomps rate real maxiter (maxerr * maxerr)
       if S.n ≠ n then throw s!"collSys: {S.n} entries, state has {n}"
       pure S
+    else if vkind = "quad" then do
+      let g0 ← fldKs getK vj "g0"
+      let g2 ← fldKs getK vj "g2"
+      pure (quadSys sqrt dt interp n vol g0 g2 rate real maxiter (maxerr * maxerr))
     else pure {
       n := n, ncell := ncell, dt := dt, s := sqrt dt, interp := interp, inv := invCell vol,
       rate := rate, var := var, varDiff := varDiff, real := real, sqrt := sqrt,
